@@ -66,6 +66,15 @@ def numbering_oracle(ctx, case, steps, ctor_err):
                 own = [nm for n, nm in zip(g.nodes, names) if fine.nodes[n].get('fragid', [None])[-1] == k]
                 if len(set(own)) != len(own):
                     ctx.fail(suites.slim(case), f'level {st["level"]}: atom names in coarse node {k} are not unique: {own[:10]}')
+                if not shared:
+                    # running index: along the block (keys ascending) the indices count 0, 1, 2, ...
+                    idx = []
+                    for n in sorted(g.nodes):
+                        nm = fine.nodes[n].get('atomname', '')
+                        el = fine.nodes[n].get('element', '')
+                        idx.append(int(nm[len(el):]) if nm.startswith(el) and nm[len(el):].isdigit() else None)
+                    if idx != list(range(len(idx))):
+                        ctx.fail(suites.slim(case), f'level {st["level"]}: atom-name indices along coarse node {k} are {idx[:12]}, not a running index')
                 for n in g.nodes:
                     if fine.nodes[n].get('fragid', [None])[-1] != k:
                         continue
@@ -144,7 +153,7 @@ for line in sys.stdin:
     c = json.loads(line)
     try:
         with lib.quiet():
-            m, f = MoleculeResolver.from_string(c['s'], legacy=c.get('legacy', True)).resolve_all()
+            m, f = MoleculeResolver.from_string(c['s'], legacy=c.get('legacy', True), last_all_atom=c.get('all_atom', True)).resolve_all()
         out.append(json.dumps({'fine': lib.dump_mol(f), 'coarse': [[k, sorted(m.nodes[k]['graph'].nodes) if 'graph' in m.nodes[k] else None] for k in m.nodes]}, sort_keys=True))
     except Exception as e:
         out.append('ERR ' + lib.err_class(e))
@@ -155,9 +164,17 @@ print(json.dumps(out))
 def hashseed_suite(ctx):
     rng = ctx.rng('hashseed')
     cases = []
-    for _ in range(ctx.budget(30, 300)):
-        c = gen_mol.cut_case(rng, nmax=9) if rng.random() < 0.5 else gen_levels.hier_case(rng)
-        cases.append({'s': c['s'], 'legacy': True})
+    for _ in range(ctx.budget(60, 600)):
+        r = rng.random()
+        if r < 0.3:
+            c = gen_mol.cut_case(rng, nmax=9)
+        elif r < 0.5:
+            c = gen_levels.hier_case(rng)
+        elif r < 0.8:
+            c = gen_mol.ambiguous_case(rng)        # several descriptors per atom: the choice among them must not depend on hashing
+        else:
+            c = gen_mol.polymer_case(rng)
+        cases.append({'s': c['s'], 'legacy': c.get('legacy', True), 'all_atom': c.get('all_atom', True)})
     payload = '\n'.join(json.dumps(c) for c in cases) + '\n'
     results = {}
     seeds = ['0', '1', '4242'] if ctx.tier == 'quick' else ['0', '1', '2', '3', '77', '4242', '99991', 'random']
@@ -183,7 +200,8 @@ def run(ctx):
         if ctx.out_of_time():
             break
         r = i % 3
-        case = gen_mol.cut_case(rng) if r == 0 else (gen_mol.polymer_case(rng) if r == 1 else gen_levels.hier_case(rng))
+        case = gen_mol.cut_case(rng) if r == 0 else (gen_mol.polymer_case(rng, big=(i % 12 == 1)) if r == 1 else
+                                                     gen_levels.hier_case(rng, share_p=rng.choice([0, 0.4])))
         suites.run_resolve_case(ctx, 'resolve', case, oracle=numbering_oracle)
     history_suite(ctx)
     hashseed_suite(ctx)
